@@ -10,7 +10,9 @@ Local Open Scope string_scope.
 Theorem C17_pipeline_list_uses :
   pipeline_uses =
   [("hlsl/src/ast_generate.rs", "for stage in &context.module.pipelines[pipeline].stages {");
+   ("hlsl/src/ast_generate.rs", "for stage in &module.pipelines[pipeline].stages {");
    ("hlsl/src/ast_generate.rs", "if let Some(pipeline) = context.module.selected_pipeline {");
+   ("hlsl/src/ast_generate.rs", "if let Some(pipeline) = module.selected_pipeline {");
    ("ir/src/ir_module.rs", "Some(index) => self.pipelines[index].default_bind_group_index,");
    ("ir/src/ir_module.rs", "for (i, pipeline) in self.pipelines.iter().enumerate() {");
    ("ir/src/ir_module.rs", "let default_set = match self.selected_pipeline {");
